@@ -49,6 +49,38 @@ def nat_gen(ctx: Ctx, bodies: list[dict], tag: str) -> list[dict]:
     return json.loads(outp.read_text())
 
 
+def joined_collisions(ctx: Ctx, rows: list, rng: random.Random, tag: str, limit: int = 4) -> list[tuple]:
+    """JOINED-TEXT collisions: a national algorithm is fed the concatenated fields of country X, the IBAN
+    checksum the concatenation "BBAN of country Y" + "Y". Where X's fields may end in two letters the two
+    concatenations can be the very same text (FR ...AE vs AE): returns [(x, nationally valid IBAN of x
+    whose fields end in y, y, BBAN of y)] - a memo keyed by the joined text would confuse the two."""
+    names8 = ["account_id", "account_type", "account_code", "account_holder_id", "currency_code",
+              "bank_code", "branch_code", "national_checksum_digits"]
+    allrows = {gen.cc_of(r): r for r in rows if gen.row_classes(r) is not None}
+    cand = []
+    for x, rx in sorted(allrows.items()):
+        if x not in NAT or not rx["haspos"]:
+            continue
+        a, z = rx["pos"][names8.index("national_checksum_digits")]
+        cx = rx["cls"]
+        if z != len(cx) or z - a != 2 or a < 4 or not all(k in (97, 99) for k in cx[a - 2:a]):
+            continue
+        for y, ry in sorted(allrows.items()):
+            cy = ry["cls"]
+            if len(cy) == a - 2 and all(k == 110 for k in cy) and all(k in (110, 99) for k in cx[:a - 2]):
+                cand.append((x, y, a))
+    bodies, meta = [], []
+    for x, y, a in cand[:: max(1, len(cand) // limit)][:limit]:
+        by = "".join(rng.choice("0123456789") for _ in range(a - 2))
+        bodies.append({"cc": cps(x), "b": cps(by + y + "00")})
+        meta.append((x, y, by))
+    out = []
+    for (x, y, by), fx in zip(meta, nat_gen(ctx, bodies, tag) if bodies else []):
+        if fx["ok"]:
+            out.append((x, iban_of(x, text(fx["b"])), y, by))
+    return out
+
+
 def algos_env(ctx: Ctx, env: dict) -> dict:
     """env + VERIF_ALGOS: the algorithm keys the code under test registers (data, read off the
     live dictionary by the probe)."""
